@@ -54,6 +54,8 @@ impl<'g, K, V> NodeIter<'g, K, V> {
     }
 
     fn push_state(&mut self, t: &'g Linked<Table<K, V>>, i: usize, n: usize) {
+        #[cfg(flurry_verif)]
+        crate::verif::event(crate::verif::Ev::IterPush, i, n);
         let mut s = self.spare.take();
         if let Some(ref mut s) = s {
             self.spare = s.next.take();
@@ -85,6 +87,8 @@ impl<'g, K, V> NodeIter<'g, K, V> {
             }
 
             // we _are_ popping the stack
+            #[cfg(flurry_verif)]
+            crate::verif::event(crate::verif::Ev::IterPop, 0, 0);
             let mut s = self.stack.take().expect("while let Some");
             n = s.length;
             self.index = s.index;
